@@ -1,6 +1,7 @@
 package main
 
 import (
+	"encoding/json"
 	"fmt"
 	"os"
 	"path/filepath"
@@ -27,6 +28,45 @@ var protectedExpr = []string{
 	"leaf[", ".leafs[", "sh.Data", "sh.Len", "tree.levels", "tree.ni", "node.hash", "node.count",
 	"dc.wbuf", "wbuf[", "h.index", "h.items", "h.collisions", "h.num", "table.Items", "mgr.stat", "rl.Owners",
 	".splits", "sp.buf", "sp.file",
+}
+
+type raceAllow struct {
+	Allow []struct {
+		Sig    string `json:"sig"`
+		Reason string `json:"reason"`
+	} `json:"allow"`
+}
+
+var raceAllowRes []*regexp.Regexp
+
+func loadRaceAllow() {
+	if raceAllowRes != nil {
+		return
+	}
+	raceAllowRes = []*regexp.Regexp{}
+	b, err := os.ReadFile(verifDir + "/race_allow.json")
+	if err != nil {
+		return
+	}
+	var ra raceAllow
+	if json.Unmarshal(b, &ra) != nil {
+		return
+	}
+	for _, a := range ra.Allow {
+		if re, err := regexp.Compile("^(?:" + a.Sig + ")$"); err == nil {
+			raceAllowRes = append(raceAllowRes, re)
+		}
+	}
+}
+
+func raceAllowed(sig string) bool {
+	loadRaceAllow()
+	for _, re := range raceAllowRes {
+		if re.MatchString(sig) {
+			return true
+		}
+	}
+	return false
 }
 
 func parseRaceLogs(base string, job Job, out *merged) {
@@ -67,7 +107,9 @@ func parseRaceLogs(base string, job Job, out *merged) {
 					continue
 				}
 			}
-			if prot != "" {
+			if prot != "" && raceAllowed("race:"+strings.Join(locs, "|")) {
+				out.events["race.reports.protected_but_triaged_harmless"]++
+			} else if prot != "" {
 				out.events["race.reports.protected"]++
 				if len(out.violations) < 200 {
 					out.violations = append(out.violations, childViolation{Case: "race", Sig: "race:" + strings.Join(locs, "|"),
